@@ -608,8 +608,11 @@ def special_scheds(pid, th, rng):
             for iv in [2, 3]:
                 n = 7
                 # saturation: input pre-filled (capacity = n), consumer re-issues its receive at once
-                cmds = [S() for _ in range(n)] + [R()] + [x for _ in range(3 * n) for x in (A(1), R())]
+                cmds = [S() for _ in range(n)] + [{"c": "recvall", "o": "out", "d": n}] + [A(1) for _ in range(iv * (n // ops + 2))]
                 out.append({"cfg": C(kind="Throttling", cap=n, ops=ops, interval=iv, inputs=[list(range(1, n + 1))]), "cmds": cmds, "epilogue": "drain", "origin": "saturation"})
+                # the same with the input arriving through a small buffer (the producer is always waiting to send)
+                cmds = [{"c": "recvall", "o": "out", "d": n}] + [x for _ in range(n) for x in (S(),)] + [A(1) for _ in range(iv * (n // ops + 2))]
+                out.append({"cfg": C(kind="Throttling", cap=n, ops=ops, interval=iv, inputs=[list(range(1, n + 1))]), "cmds": [{"c": "burst", "sub": cmds[1:n + 1] + cmds[:1]}] + cmds[n + 1:], "epilogue": "drain", "origin": "saturation"})
                 for cap in [0, 1, 2]:
                     # idle period, then a burst: the worst case of the window bound
                     for idle in [iv, 2 * iv, 3 * iv + 1]:
@@ -621,6 +624,8 @@ def special_scheds(pid, th, rng):
         for cap in [0, 1, 2]:
             for freq in [1, 2, 3]:
                 cmds = [R()] + [x for _ in range(6) for x in (A(freq), R())]
+                out.append({"cfg": C(kind="Emit", cap=cap, freq=freq, mode="pure"), "cmds": cmds, "epilogue": "cancel", "origin": "keep-up"})
+                cmds = [{"c": "recvall", "o": "out", "d": 6}] + [A(1) for _ in range(7 * freq)]
                 out.append({"cfg": C(kind="Emit", cap=cap, freq=freq, mode="pure"), "cmds": cmds, "epilogue": "cancel", "origin": "keep-up"})
                 # a consumer that stalls for several ticks and then reads quickly: f must still not be called twice within one tick
                 for stall in (3 * freq + 1, 2 * freq + 1, 5 * freq):
